@@ -309,13 +309,16 @@ func mountAll(u *go9p.Ufs, n int, together bool, tag string) ([]*go9p.Clnt, erro
 	}
 	errs := make([]error, n)
 	start := make(chan struct{})
+	// (the package variable go9p.OsUsers is assigned by the first Uid2User call:
+	// it is read here, by one goroutine)
+	user := go9p.OsUsers.Uid2User(0)
 	var wg sync.WaitGroup
 	for ci := range ends {
 		wg.Add(1)
 		go func(ci int) {
 			defer wg.Done()
 			<-start
-			clnts[ci], errs[ci] = go9p.MountConn(ends[ci], fmt.Sprintf("conn%d", ci), 8192, go9p.OsUsers.Uid2User(0))
+			clnts[ci], errs[ci] = go9p.MountConn(ends[ci], fmt.Sprintf("conn%d", ci), 8192, user)
 		}(ci)
 	}
 	close(start)
